@@ -2641,7 +2641,15 @@ class DataStoreMgr:
         )
         if not tproxy:
             return
-        new_flow_nums = deserialise_set(tproxy.flow_nums).difference(removed)
+        # (start from a pending flow-number delta, if any, e.g. a flow merge
+        # made in this same iteration, rather than from the stored value)
+        tp_delta = self.updated[TASK_PROXIES].get(tp_id)
+        current = (
+            tp_delta.flow_nums
+            if tp_delta is not None and tp_delta.HasField('flow_nums')
+            else tproxy.flow_nums
+        )
+        new_flow_nums = deserialise_set(current).difference(removed)
         self._delta_task_flow_nums(tp_id, new_flow_nums)
 
     def _delta_task_flow_nums(self, tp_id: str, flow_nums: 'FlowNums') -> None:
